@@ -217,6 +217,32 @@ class _Interp:
                         break
                 return ast.Constant(value=v)
 
+            def _comp(self, n):
+                # a comprehension / generator expression is expanded here (its variables are local to it): iterables, conditions and the element are interpreted per element
+                results = []
+
+                def rec(i, env_):
+                    if i == len(n.generators):
+                        results.append((interp.ev(n.key, env_), interp.ev(n.value, env_)) if isinstance(n, ast.DictComp) else interp.ev(n.elt, env_))
+                        return
+                    g = n.generators[i]
+                    it = interp.ev(g.iter, env_)
+                    if g.is_async or not isinstance(it, (list, tuple, set, frozenset, dict, str, range)):
+                        raise minieval.CannotEval(f"{u(n)[:60]}: iterable")
+                    for v in it:
+                        env2 = dict(env_)
+                        interp._bind(g.target, v, env2)
+                        if all(interp.ev(c, env2) for c in g.ifs):
+                            rec(i + 1, env2)
+
+                rec(0, dict(env))
+                try:
+                    return ast.Constant(value=dict(results) if isinstance(n, ast.DictComp) else (set(results) if isinstance(n, ast.SetComp) else list(results)))
+                except TypeError as x:
+                    raise minieval.CannotEval(f"{u(n)[:60]}: {x}")
+
+            visit_ListComp = visit_SetComp = visit_GeneratorExp = visit_DictComp = _comp
+
             def visit_Call(self, n):
                 n = self.generic_visit(n)
                 f = n.func
@@ -299,6 +325,11 @@ class _Interp:
         elif isinstance(t, (ast.Tuple, ast.List)) and isinstance(v, (tuple, list)) and len(v) == len(t.elts):
             for t_, v_ in zip(t.elts, v):
                 self._bind(t_, v_, env)
+        elif isinstance(t, ast.Subscript) and isinstance(t.value, ast.Name) and isinstance(env.get(t.value.id), (list, dict)) and not isinstance(t.slice, ast.Slice):
+            try:
+                env[t.value.id][self.ev(t.slice, env)] = v
+            except (TypeError, IndexError, KeyError) as x:
+                raise minieval.CannotEval(f"assignment target {u(t)[:40]}: {type(x).__name__}")
         else:
             raise minieval.CannotEval(f"assignment target {u(t)[:40]}")
 
@@ -314,6 +345,31 @@ class _Interp:
                 return "skip"
             if isinstance(s_, ast.AugAssign) and isinstance(s_.target, ast.Name):
                 env_[s_.target.id] = self.ev(ast.BinOp(left=ast.Name(id=s_.target.id, ctx=ast.Load()), op=s_.op, right=s_.value), env_)
+                return "skip"
+            if isinstance(s_, ast.Expr) and isinstance(s_.value, ast.Call) and isinstance(s_.value.func, ast.Attribute) and isinstance(s_.value.func.value, ast.Name) and \
+                    isinstance(env_.get(s_.value.func.value.id), (list, dict, set)):
+                # a statement that changes a local container (`row.append(cell)`): performed on the value; one this interpreter does not know is never skipped silently
+                c_, recv = s_.value, env_[s_.value.func.value.id]
+                ok_ = {list: ("append", "extend", "insert"), dict: ("update", "setdefault"), set: ("add", "update")}[type(recv)]
+                if c_.func.attr not in ok_ or c_.keywords or any(isinstance(a_, ast.Starred) for a_ in c_.args):
+                    raise minieval.CannotEval(f"statement {u(s_)[:60]}: effect on a local container")
+                try:
+                    getattr(recv, c_.func.attr)(*[self.ev(a_, env_) for a_ in c_.args])
+                except (TypeError, ValueError) as x:
+                    raise minieval.CannotEval(f"statement {u(s_)[:60]}: {type(x).__name__}")
+                return "skip"
+            if isinstance(s_, ast.For) and not s_.orelse:
+                # a loop over a value this interpreter can enumerate (a literal table, a list built before): its body is interpreted per element
+                it = self.ev(s_.iter, env_)
+                if not isinstance(it, (list, tuple, set, frozenset, dict, str, range)):
+                    raise minieval.CannotEval(f"loop over {u(s_.iter)[:40]}")
+                for v in list(it):
+                    self._bind(s_.target, v, env_)
+                    o_ = decide(s_.body, lambda n, e2: bool(self.ev(n, e2)), env_, on_stmt=hook)
+                    if o_.kind == "break":
+                        break
+                    if o_.kind not in ("fallthrough", "continue"):
+                        return o_
                 return "skip"
             return None
 
@@ -429,6 +485,253 @@ def run(chk):
             if isinstance(n, ast.Call) and u(n.func) in aliases:
                 sites.append((f, n))
 
+    from sa import minieval
+
+    # ---- helpers shared by the rules: what a construct inside an EXTRACTED HELPER or a TABLE-DRIVEN loop / comprehension stands for -----------------------------------
+    def assigned_in(g, name):
+        """the name is (re)bound somewhere in g's own body (a parameter that is re-bound no longer holds the caller's argument)."""
+        return any(isinstance(x, ast.Name) and x.id == name and isinstance(x.ctx, ast.Store) for x in walk_body(g))
+
+    def calls_of(g):
+        """the calls of helper g inside the reporter as (function the call lies in, call): of a method `<receiver>.g(...)` (receiver = first parameter of the calling method),
+        of a nested helper `g(...)` inside the function that defines it, and INDIRECT ones: through a local alias (`fn = self.g`) or the loop variable of a literal table
+        of bound methods (`for section in (self.a, self.g, ...): section(...)`), see callees()."""
+        return [(h, n) for h, n, callee in call_graph() if callee is g]
+
+    own_params = lambda g: (lambda ps: ps[1:] if cm.get(g.name) is g and not _is_static(g) else ps)(params_of(g) + [x.arg for x in g.args.kwonlyargs])  # noqa: E731
+
+    def arg_at(call, g, p):
+        """the expression parameter p of g is bound to at this call (its default when the call does not pass it), None when it cannot be told (* / ** arguments)."""
+        if any(isinstance(a, ast.Starred) for a in call.args) or any(k.arg is None for k in call.keywords):
+            return None
+        a_ = bind_args(call, g).get(p)
+        if a_ is None:
+            pos = params_of(g)
+            dflt = dict(zip(pos[len(pos) - len(g.args.defaults):], g.args.defaults))
+            dflt.update({k.arg: d for k, d in zip(g.args.kwonlyargs, g.args.kw_defaults) if d is not None})
+            a_ = dflt.get(p)
+        return a_
+
+    def literal_elements(e, defs, depth=0):
+        """the elements of an iterable that is a LITERAL table, as expressions: a tuple / list / set display, a dict display (its keys; `.items()` pairs; `.values()`),
+        zip(...) / enumerate(...) / list(...) / tuple(...) of such, or a single-assignment local holding one (named module / class constants are already literals: N9);
+        None when the iterable is not a literal."""
+        if depth > 4:
+            return None
+        if isinstance(e, ast.Name) and e.id in defs:
+            return literal_elements(defs[e.id], defs, depth + 1)
+        if isinstance(e, (ast.Tuple, ast.List, ast.Set)):
+            return list(e.elts) if e.elts and not any(isinstance(x, ast.Starred) for x in e.elts) else None
+        if isinstance(e, ast.Dict):
+            return list(e.keys) if e.keys and all(k is not None for k in e.keys) else None
+        if isinstance(e, ast.Call) and not e.keywords:
+            if isinstance(e.func, ast.Attribute) and e.func.attr in ("items", "keys", "values") and not e.args:
+                d = e.func.value
+                d = defs.get(d.id) if isinstance(d, ast.Name) else d
+                if isinstance(d, ast.Dict) and d.keys and all(k is not None for k in d.keys):
+                    return {"keys": list(d.keys), "values": list(d.values), "items": [ast.Tuple(elts=[k, v], ctx=ast.Load()) for k, v in zip(d.keys, d.values)]}[e.func.attr]
+                return None
+            fn = dotted(e.func)
+            if fn in ("list", "tuple", "iter") and len(e.args) == 1:
+                return literal_elements(e.args[0], defs, depth + 1)
+            if fn == "zip" and e.args:
+                cols = [literal_elements(a, defs, depth + 1) for a in e.args]
+                return None if any(c_ is None for c_ in cols) else [ast.Tuple(elts=list(t_), ctx=ast.Load()) for t_ in zip(*cols)]
+            if fn == "enumerate" and 1 <= len(e.args) <= 2:
+                els = literal_elements(e.args[0], defs, depth + 1)
+                start = 0 if len(e.args) == 1 else (e.args[1].value if isinstance(e.args[1], ast.Constant) and isinstance(e.args[1].value, int) else None)
+                return None if els is None or start is None else [ast.Tuple(elts=[ast.Constant(value=i_ + start), el], ctx=ast.Load()) for i_, el in enumerate(els)]
+        return None
+
+    def bind_target(t, el):
+        """{loop variable: element expression} of one element of a literal table bound to a loop target (nested tuple targets included), None when it does not fit."""
+        if isinstance(t, ast.Name):
+            return {t.id: el}
+        if isinstance(t, (ast.Tuple, ast.List)) and isinstance(el, (ast.Tuple, ast.List)) and len(el.elts) == len(t.elts) and not any(isinstance(x, ast.Starred) for x in list(t.elts) + list(el.elts)):
+            out = {}
+            for t_, v_ in zip(t.elts, el.elts):
+                b_ = bind_target(t_, v_)
+                if b_ is None:
+                    return None
+                out.update(b_)
+            return out
+        return None
+
+    def table_rows(c):
+        """a construct that is evaluated in a loop OR comprehension over a LITERAL table (`for label, attribute in (("Heap used for terms", "memory_terms"), ...)`: an if-chain / a
+        sequence of calls turned into table dispatch, a generator of lines over (label, key) pairs) stands for one instance per row: (rows as {loop variable: expression},
+        names of all loop variables of such tables); rows is [{}] outside such a loop and None when a row cannot be bound to the loop target."""
+        rows, names = [{}], set()
+        g_ = source.enclosing_func(c)
+        defs = local_defs(g_) if g_ is not None else {}
+        prev = c
+        for a in source.ancestors(c):
+            if isinstance(a, (ast.FunctionDef, ast.AsyncFunctionDef, ast.Lambda, ast.ClassDef)):
+                break
+            tables = []
+            if isinstance(a, ast.For) and not any(prev is s_ for s_ in a.orelse) and prev is not a.iter:
+                tables.append((a.target, a.iter))
+            elif isinstance(a, (ast.ListComp, ast.SetComp, ast.GeneratorExp, ast.DictComp)) and not isinstance(prev, ast.comprehension):
+                tables += [(gen.target, gen.iter) for gen in a.generators]
+            for target, it_ in tables:
+                els = literal_elements(it_, defs)
+                if els is None:
+                    continue
+                names |= {x.id for x in ast.walk(target) if isinstance(x, ast.Name)}
+                if rows is None:
+                    continue
+                new = []
+                for el in els:
+                    bnd = bind_target(target, el)
+                    if bnd is None:
+                        new = None
+                        break
+                    new += [dict(bnd, **r_) for r_ in rows]
+                rows = new
+            prev = a
+        return rows, names
+
+    def method_ref(e, ctx):
+        """the method of the reporter an expression `<receiver>.m` (receiver = first parameter of the method the expression lies in) refers to, else None"""
+        m_ = ctx
+        while m_ is not None and cm.get(m_.name) is not m_:
+            m_ = source.enclosing_func(m_)
+        if m_ is not None and isinstance(e, ast.Attribute) and isinstance(e.value, ast.Name) and e.value.id in params_of(m_)[:1] and e.attr in cm:
+            return cm[e.attr]
+        return None
+
+    def callees(n):
+        """the functions of the reporter a call may invoke: a method (`<receiver>.m(...)`), a nested helper of an enclosing function (`helper(...)`), and through a NAME that holds a
+        bound method: a single-assignment local alias or the loop variable of a literal table of bound methods (table dispatch instead of a sequence of calls)."""
+        ctx = source.enclosing_func(n)
+        if ctx is None:
+            return []
+        direct = method_ref(n.func, ctx)
+        if direct is not None:
+            return [direct]
+        if not isinstance(n.func, ast.Name):
+            return []
+        g = ctx
+        while g is not None:
+            nested = [x for x in walk_body(g) if isinstance(x, ast.FunctionDef) and x.name == n.func.id]
+            if nested:
+                return nested[:1]
+            alias = local_defs(g).get(n.func.id)
+            if alias is not None and method_ref(alias, g) is not None:
+                return [method_ref(alias, g)]
+            g = source.enclosing_func(g)
+        rows, names = table_rows(n)
+        if n.func.id in names and rows:
+            got = [method_ref(r_.get(n.func.id), ctx) for r_ in rows]
+            return [] if any(m_ is None for m_ in got) else list({id(m_): m_ for m_ in got}.values())
+        return []
+
+    _cg = []
+
+    def call_graph():
+        """(function the call lies in, call, callee) for every call inside the reporter class whose callee is a function of the reporter (see callees)"""
+        if not _cg:
+            _cg.append([(source.enclosing_func(n), n, callee) for h in cm.values() for n in ast.walk(h) if isinstance(n, ast.Call) for callee in callees(n)])
+        return _cg[0]
+
+    def free_names(e):
+        return {x.id for x in ast.walk(e) if isinstance(x, ast.Name) and isinstance(x.ctx, ast.Load)} if e is not None else set()
+
+    def row_feasible(c, row):
+        """False when a guard of construct c evaluates, for this row of the literal table, to the polarity under which c is NOT reached; guards that cannot be evaluated keep the row"""
+        for t_, pol in guards(c, path_sensitive=True):
+            try:
+                if bool(minieval.ev(source.inline_node(t_, row), {})) != pol:
+                    return False
+            except (minieval.CannotEval, TypeError, ValueError, KeyError, IndexError, AttributeError):
+                continue
+        return True
+
+    def attr_forms(c, e):
+        """`getattr(<name>, X)` read at construct c, X resolved per row of a literal table / per call of the enclosing helper to a constant: the attribute expressions
+        `<name>.<x>` it stands for; [e] for any other expression (or when X is not resolved)"""
+        if isinstance(e, ast.Call) and dotted(e.func) == "getattr" and len(e.args) == 2 and not e.keywords and isinstance(e.args[0], ast.Name):
+            insts = instantiate(c, [e.args[1]], lambda t_: not free_names(t_[0]))
+            vals = [label_str(t_[0]) if not free_names(t_[0]) else None for t_, _ in insts or []]
+            if vals and all(isinstance(v_, str) and v_.isidentifier() for v_ in vals):
+                return [ast.Attribute(value=ast.Name(id=e.args[0].id, ctx=ast.Load()), attr=v_, ctx=ast.Load()) for v_ in vals]
+        return [e]
+
+    def instantiate(c, exprs, resolved, depth=0):
+        """What the expressions `exprs` (read at construct c) are in every INSTANCE the construct stands for: one per row of the literal table(s) c is iterated over (when the
+        expressions use the loop variables) and - when they are still not `resolved` and depend on parameters of the helper c lies in (an extracted helper method, a nested
+        helper) - one per call of that helper, the parameters replaced by the arguments of the call (which are instantiated in the caller the same way). Single-assignment
+        locals are inlined. -> list of (tuple of expressions, expressions with only the table row substituted); None when a table row cannot be bound."""
+        g = source.enclosing_func(c)
+        if g is None:
+            return [(tuple(exprs), tuple(exprs))]
+        defs = {k_: v_ for k_, v_ in local_defs(g).items() if k_ not in params_of(g)}
+        ex1 = [source.inline_node(e, defs) if e is not None else None for e in exprs]
+        rows, names = table_rows(c)
+        used = set().union(*[free_names(e) for e in ex1]) if ex1 else set()
+        if not (used & names):
+            rows = [{}]
+        elif rows is None:
+            return None
+        out = []
+        for row in rows:
+            if row and not row_feasible(c, row):
+                continue  # the construct is not reached for this row (`if count_attribute:` with a row whose column is None)
+            exr = tuple(source.inline_node(e, row) if e is not None and row else e for e in ex1)
+            loc_ = tuple(source.inline_node(e, row) if e is not None and row else e for e in exprs)
+            need = sorted(p_ for p_ in set().union(*[free_names(e) for e in exr]) & set(own_params(g)) if not assigned_in(g, p_)) if exr else []
+            calls = calls_of(g) if need and depth < 3 and not resolved(exr) else []
+            expanded = []
+            for h, n in calls:
+                args = [arg_at(n, g, p_) for p_ in need]
+                # the arguments are instantiated in the caller the same way; as far as the caller itself receives them from ITS callers they are resolved there
+                sub = instantiate(n, args, lambda t_, h=h: not any(free_names(v_) & set(own_params(h)) for v_ in t_ if v_ is not None), depth + 1) if all(a_ is not None for a_ in args) else None
+                if sub is None:
+                    expanded = None
+                    break
+                for vals, _ in sub:
+                    bnd = dict(zip(need, vals))
+                    expanded.append((tuple(source.inline_node(e, bnd) if e is not None else None for e in exr), loc_))
+            out += expanded if expanded else [(exr, loc_)]
+        return out
+
+    def origins(g, e, anchor, depth=0):
+        """Where the value of expression e (read in function g at node `anchor`) comes from, followed through single-assignment locals, a `... or []` default and - when it is a
+        parameter of a helper (method or nested function) - to the argument of EACH call of the helper: [(function, expression there, node there the flow passes: the construct
+        itself resp. the call of the helper, defaulted?, levels passed on the way: (function, parameter name, node))]."""
+        e = source.inline_node(e, {k_: v_ for k_, v_ in local_defs(g).items() if k_ not in params_of(g)})
+        defaulted = isinstance(e, ast.BoolOp) and isinstance(e.op, ast.Or) and len(e.values) == 2 and isinstance(e.values[1], (ast.List, ast.Tuple)) and not e.values[1].elts
+        if defaulted:
+            e = e.values[0]
+        if isinstance(e, ast.Name) and e.id in own_params(g) and not assigned_in(g, e.id) and depth < 3:
+            out = []
+            for h, n in calls_of(g):
+                a_ = arg_at(n, g, e.id)
+                if a_ is None:
+                    return [(g, e, anchor, defaulted, [])]
+                out += [(h_, e_, n_, d_ or defaulted, lv_ + [(g, e.id, anchor)]) for h_, e_, n_, d_, lv_ in origins(h, a_, n, depth + 1)]
+            if out:
+                return out
+        return [(g, e, anchor, defaulted, [])]
+
+    def label_str(e):
+        """constant text of a metric label: the formatted text when every part is a constant (f-string, '%' and + of constants), else the text with placeholders."""
+        if e is None:
+            return None
+        try:
+            v = minieval.ev(e, {})
+            if isinstance(v, str):
+                return v
+        except (minieval.CannotEval, TypeError, ValueError, KeyError, IndexError, AttributeError):
+            pass
+        if isinstance(e, ast.BinOp) and isinstance(e.op, ast.Mod) and isinstance(e.left, ast.Constant) and isinstance(e.left.value, str):
+            # '%'-format: the constant arguments are filled in, the others stay placeholders
+            args = list(e.right.elts) if isinstance(e.right, ast.Tuple) else [e.right]
+            parts = re.split(r"%[sdrif]", e.left.value)
+            if len(parts) == len(args) + 1 and not any("%" in p_.replace("%%", "") for p_ in parts):
+                return "".join(p_.replace("%%", "%") + (str(a_.value) if isinstance(a_, ast.Constant) else "{}") for p_, a_ in zip(parts, args)) + parts[-1].replace("%%", "%")
+        return label_text(e)
+
     # ---- O20.1 direction table -------------------------------------------------------------------------------------------------------
     chk.rule("O20.1", "every comparison-line construction passes a constant direction flag: increase-is-improvement iff the metric label names a throughput; all others "
              "(latency, times, error rate, sizes, counts) decrease-is-improvement", 35,
@@ -454,12 +757,7 @@ def run(chk):
         except minieval.CannotEval:
             pass
         if isinstance(e, ast.Name) and e.id in params_of(g) and depth < 3:
-            if g.name in cm and cm[g.name] is g:
-                calls = [(h, n) for h in cm.values() for n in ast.walk(h) if isinstance(n, ast.Call) and isinstance(n.func, ast.Attribute) and n.func.attr == g.name and
-                         isinstance(n.func.value, ast.Name) and n.func.value.id in params_of(h)[:1]]
-            else:
-                outer = source.enclosing_func(g)
-                calls = [(outer, n) for n in ast.walk(outer) if isinstance(n, ast.Call) and isinstance(n.func, ast.Name) and n.func.id == g.name] if outer is not None else []
+            calls = calls_of(g)
             gdef = dict(zip(params_of(g)[len(params_of(g)) - len(g.args.defaults):], g.args.defaults))
             vals = set()
             for h, n in calls:
@@ -469,43 +767,37 @@ def run(chk):
                 return vals.pop()
         return None
 
-    from sa import minieval
-
-    def table_rows(c):
-        """a line constructed in a loop over a LITERAL table (`for label, attribute in (("Heap used for terms", "memory_terms"), ...)`: an if-chain / a sequence of calls turned
-        into table dispatch) stands for one line per row: the rows as {loop variable: constant}; [{}] for a line outside such a loop, None when a row cannot be bound"""
-        rows = [{}]
-        for a in source.ancestors(c):
-            if isinstance(a, ast.For) and isinstance(a.iter, (ast.Tuple, ast.List)) and a.iter.elts and not any(c is x for s_ in a.orelse for x in ast.walk(s_)):
-                new = []
-                for el in a.iter.elts:
-                    if isinstance(a.target, ast.Name):
-                        bnd = {a.target.id: el}
-                    elif isinstance(a.target, (ast.Tuple, ast.List)) and isinstance(el, (ast.Tuple, ast.List)) and len(el.elts) == len(a.target.elts) and all(isinstance(t_, ast.Name) for t_ in a.target.elts):
-                        bnd = {t_.id: v_ for t_, v_ in zip(a.target.elts, el.elts)}
-                    else:
-                        return None
-                    new += [dict(bnd, **r_) for r_ in rows]
-                rows = new
-        return rows
+    def const_bool(e):
+        """the boolean an expression without free names evaluates to (constant, conditional / dict lookup on constants), else None."""
+        if e is None:
+            return None
+        if isinstance(e, ast.Constant):
+            return e.value if isinstance(e.value, bool) else None
+        try:
+            v = minieval.ev(e, {})
+            return v if isinstance(v, bool) else None
+        except (minieval.CannotEval, TypeError, ValueError, KeyError, IndexError, AttributeError):
+            return None
 
     n_thr = 0
     site_label = {}
     for f, c in sites:
         b = bind_args(c, line)
         flag = b.get(P_FLAG, line_defaults.get(P_FLAG))
-        rows = table_rows(c) if b.get(P_METRIC) is not None and label_text(b.get(P_METRIC)) is None else [{}]
-        for row_ in rows or [{}]:
-            lab_e = source.inline_node(b.get(P_METRIC), row_) if b.get(P_METRIC) is not None and row_ else b.get(P_METRIC)
-            lab = label_text(lab_e) if lab_e is not None else None
+        g_ = source.enclosing_func(c) or f
+        # one instance per line the construction stands for: per row of a literal table it is iterated over, per call of the helper whose parameters the label / the flag are
+        insts = instantiate(c, [b.get(P_METRIC), flag], lambda t_: not free_names(t_[0]) and const_bool(t_[1]) is not None) if b.get(P_METRIC) is not None else None
+        for (lab_e, flag_e), (_, flag_loc) in insts or [((b.get(P_METRIC), flag), (None, flag))]:
+            lab = label_str(lab_e) if lab_e is not None and insts is not None else None
             if lab is None:
                 chk.unknown("O20.1", f"metric label of {short(c, 60)} is not a (formatted) string constant", c)
                 break
             site_label.setdefault(id(c), lab)
             is_thr = "throughput" in lab.lower()
             n_thr += is_thr
-            flag_ = source.inline_node(flag, row_) if flag is not None and row_ else flag
-            fv_ = flag_value(source.enclosing_func(c) or f, flag_)
+            fv_ = const_bool(flag_e)
+            if fv_ is None:
+                fv_ = flag_value(g_, flag_loc)
             if fv_ is None:
                 # the flag WAS not resolved to a boolean: not recognised, never a finding
                 chk.unknown("O20.1", f"'{lab}': the direction flag `{short(flag, 50) if flag is not None else None}` cannot be resolved to a boolean constant", c)
@@ -530,27 +822,40 @@ def run(chk):
     roles.param_roles[("report", rps[2])] = {"C"}
     changed = True
     it = 0
+
+    def env_at(node):
+        """role environment at a node: the one of the method, refined by the nested helper function(s) the node lies in (their parameters carry the roles of their call arguments)"""
+        chain = []
+        g = source.enclosing_func(node)
+        while g is not None:
+            chain.append(g)
+            g = source.enclosing_func(g)
+        env = None
+        for g in reversed(chain):
+            env = roles.env_for(g, outer=env)
+        return env or {}
+
+    # parameter roles flow along the call graph of the reporter: direct method calls, calls of nested helpers, calls through an alias or the loop variable of a literal table
+    # of bound methods; the line constructors themselves (and pure list plumbing) are not followed
+    plumbing = {line.name, diff.name} | {m_ for m_ in ("_join", "_append_non_empty") if m_ in cm}
     while changed and it < 8:
         changed = False
         it += 1
-        for name, f in cm.items():
-            env = roles.env_for(f)
-            nested = [n for n in ast.walk(f) if isinstance(n, (ast.FunctionDef,)) and n is not f]
-            for n in ast.walk(f):
-                if isinstance(n, ast.Call) and isinstance(n.func, ast.Attribute) and isinstance(n.func.value, ast.Name) and n.func.value.id == "self" and n.func.attr in cm and n.func.attr not in ("_line", "_diff", "_join", "_append_non_empty"):
-                    callee = cm[n.func.attr]
-                    for p, a in bind_args(n, callee).items():
-                        d = roles.deps(a, env)
-                        old = roles.param_roles.get((callee.name, p), set())
-                        if not d <= old:
-                            roles.param_roles[(callee.name, p)] = old | d
-                            changed = True
+        envs = {}
+        for h, n, callee in call_graph():
+            if callee.name in plumbing and cm.get(callee.name) is callee:
+                continue
+            if id(h) not in envs:
+                envs[id(h)] = env_at(n)
+            for p, a in bind_args(n, callee, skip_self=cm.get(callee.name) is callee).items():
+                d = roles.deps(a, envs[id(h)])
+                old = roles.param_roles.get((callee.name, p), set())
+                if not d <= old:
+                    roles.param_roles[(callee.name, p)] = old | d
+                    changed = True
     for f, c in sites:
         # environment: method env, plus nested-function parameters (role-free) when the site is in a nested helper
-        env = roles.env_for(f)
-        inner = source.enclosing_func(c)
-        if inner is not f and inner is not None:
-            env = roles.env_for(inner, outer=env)
+        env = env_at(c)
         b = bind_args(c, line)
         db, dc = roles.deps(b.get(P_BASE), env), roles.deps(b.get(P_CONT), env)
         lab = label_text(b.get(P_METRIC)) or site_label.get(id(c)) or "?"
@@ -1074,7 +1379,7 @@ def run(chk):
     # ---- O20.5 only common metrics --------------------------------------------------------------------------------------------------------------------------------
     chk.rule("O20.5", "a line is emitted only when both values are not None (4-row table); tasks are the intersection; guards on scalar metric values use `is None`, never truthiness (0 is a value); optional members of a stored task result (throughput mean, processing time) are read with a default in both races", 6,
              "a metric missing in one race is printed (crash on None arithmetic), or a zero-valued metric present in both races is dropped / breaks swap symmetry")
-    row_guard = guards(row[0]) if row else []
+    row_guard = guards(row[0], path_sensitive=True) if row else []
 
     def emits(bv, cv):
         """does _line yield a row for these operand VALUES (its statements evaluated with its helpers)? True also when it goes on to compute with a None operand (the guard let
@@ -1113,37 +1418,40 @@ def run(chk):
                    (" (a value of 0 must still be compared)" if not bn and not cn else ""))
             continue
 
-        def atom(n, env):
-            # `<operand> is [not] None` in either orientation (== / != None read the same); anything else about the operands is not an atom (UnknownAtom)
-            if isinstance(n, ast.Compare) and len(n.ops) == 1 and isinstance(n.ops[0], (ast.Is, ast.IsNot, ast.Eq, ast.NotEq)):
-                sides = [n.left, n.comparators[0]]
-                none = [isinstance(x, ast.Constant) and x.value is None for x in sides]
-                if none.count(True) == 1:
-                    other = sides[1 - none.index(True)]
-                    if isinstance(other, ast.Name) and other.id in (P_BASE, P_CONT):
-                        is_none = bn if other.id == P_BASE else cn
-                        return is_none if isinstance(n.ops[0], (ast.Is, ast.Eq)) else not is_none
-            return None
-
+        # _line cannot be interpreted as a whole (a statement kind the interpreter does not know): its DECISIONS are still evaluated on the same operand values - every test of
+        # the operands (is None, == None, `None in (a, b)`, truthiness, ...) by minieval - and a line counts as emitted when the outcome is the 7-cell row; a test that cannot
+        # be evaluated makes the case not recognised, never a finding
         if not row:
             chk.unknown("O20.5", f"{inst}: _line can neither be evaluated on values nor does it return a literal 7-cell row", line)
             continue
-        try:
+        got, undecided = {}, None
+        for bv, cv in itertools.product([None] if bn else [3.0, 0, -2.5, 0.0], [None] if cn else [5.0, 0, -1.0]):
+            def atom(n, env=None, bv=bv, cv=cv):
+                try:
+                    return bool(minieval.ev(n, {P_BASE: bv, P_CONT: cv}))
+                except (minieval.CannotEval, TypeError, ValueError, KeyError, IndexError, AttributeError):
+                    return None
+
             try:
-                # the whole body of _line evaluated for the case: a line is emitted iff the outcome is the 7-element row (early returns / arm order do not matter)
-                o_ = decide(own_stmts(line), atom, {})
-                val = o_.kind == "return" and (o_.node is row[0] or (isinstance(o_.value, ast.List) and len(o_.value.elts) == 7))
-            except Unsupported:
-                if not row_guard:
-                    chk.unknown("O20.5", f"{inst}: the statements of _line are not a decision this rule can evaluate", line)
-                    continue
-                val = all(bool_eval(t, lambda n: atom(n, {})) == pol for t, pol in row_guard)
-            chk.ob("O20.5", inst, val == (not bn and not cn), row[0], f"emits: {val}")
-        except UnknownAtom as e:
-            if re.search(rf"\b({re.escape(P_BASE)}|{re.escape(P_CONT)})\b", str(e)):
-                chk.ob("O20.5", "line guard", False, line, f"guard tests something else than None-ness of an operand: {e} (a value of 0 must still be compared)")
-            else:
-                chk.unknown("O20.5", f"{inst}: the guard of the row tests `{e}`, which this rule cannot decide", line)
+                try:
+                    # the whole body of _line evaluated for the case: a line is emitted iff the outcome is the 7-element row (early returns / arm order do not matter)
+                    o_ = decide(own_stmts(line), atom, {})
+                    got[(bv, cv)] = o_.kind == "return" and (o_.node is row[0] or (isinstance(o_.value, ast.List) and len(o_.value.elts) == 7))
+                except Unsupported:
+                    if not row_guard:
+                        undecided = "the statements of _line are not a decision this rule can evaluate"
+                        break
+                    got[(bv, cv)] = all(bool_eval(t, atom) == pol for t, pol in row_guard)
+            except UnknownAtom as e:
+                undecided = f"the guard of the row tests `{e}`, which this rule cannot decide"
+                break
+        if undecided:
+            chk.unknown("O20.5", f"{inst}: {undecided}", line)
+            continue
+        wrong = [k_ for k_, v_ in got.items() if v_ != (not bn and not cn)]
+        chk.ob("O20.5", inst, not wrong, row[0], f"emits: {not bn and not cn} (decisions of _line evaluated)" if not wrong else
+               "; ".join(f"_line(baseline={k_[0]}, contender={k_[1]}) {'emits a line' if got[k_] else 'emits no line'}" for k_ in wrong[:3]) +
+               (" (a value of 0 must still be compared)" if not bn and not cn else ""))
     # per-task lines only for tasks of BOTH races. Shapes: a loop over one race's tasks (directly, through a hoisted local or wrapped in list / sorted / tuple) whose body
     # tests membership in the other race's tasks (`if t in X: ...` / `if t not in X: continue`), or a loop over a comprehension that filters by that membership
     mdefs_ = local_defs(mt)
@@ -1283,18 +1591,25 @@ def run(chk):
             def visit_Name(self, n):
                 return ast.Name(id="__rec__", ctx=ast.Load()) if isinstance(root, ast.Name) and n.id == root.id else n
 
-        expr = _Sub().visit(source.clone(top))
-        touched = []
-        val, err = None, None
-        try:
-            val = _Interp().ev(expr, {"__rec__": _Rec(absent, path=path, touched=touched)})
-        except minieval.CannotEval as e:
-            err = str(e)
-        except (Unsupported, UnknownAtom, TypeError, ValueError, AttributeError, KeyError, IndexError, ArithmeticError, RecursionError) as e:
-            err = f"{type(e).__name__}: {e}" if not isinstance(e, KeyError) else f"KeyError {e}"
+        expr0 = _Sub().visit(source.clone(top))
+        # a read whose member key is the loop variable of a literal table (`record.get(stat) for stat in ("min", "mean", ...)`) stands for one read per row
+        rows_, names_ = table_rows(top)
+        variants = [source.inline_node(expr0, r_) for r_ in rows_] if rows_ and (free_names(expr0) & names_) else [expr0]
+        results = []
+        for expr in variants:
+            touched = []
+            val, err = None, None
+            try:
+                val = _Interp().ev(expr, {"__rec__": _Rec(absent, path=path, touched=touched)})
+            except minieval.CannotEval as e:
+                err = str(e)
+            except (Unsupported, UnknownAtom, TypeError, ValueError, AttributeError, KeyError, IndexError, ArithmeticError, RecursionError) as e:
+                err = f"{type(e).__name__}: {e}" if not isinstance(e, KeyError) else f"KeyError {e}"
+            results.append((touched, val, err))
         stmt = source.enclosing_stmt(top)
         local = stmt.targets[0].id if isinstance(stmt, ast.Assign) and stmt.value is top and len(stmt.targets) == 1 and isinstance(stmt.targets[0], ast.Name) else None
-        if not touched:
+        if not any(t_ for t_, _, _ in results):
+            touched, val, err = results[0]
             # selects mandatory members only (or its keys are not constants): a (sub-)record that is stored or handed on is followed
             if err is None and isinstance(val, _Rec) and depth < 4:
                 if local is not None and local in local_defs(f):
@@ -1322,27 +1637,30 @@ def run(chk):
                         if a_ is top and not any(isinstance(x, ast.Name) and x.id == p_ and isinstance(x.ctx, ast.Store) for x in ast.walk(callee)):
                             work += [(callee, x, role, val.path, depth + 1) for x in walk_body(callee) if isinstance(x, ast.Name) and x.id == p_ and isinstance(x.ctx, ast.Load)]
             continue
-        if err is not None and "KeyError" not in err:
-            chk.unknown("O20.5", f"{name}: the read `{short(top, 70)}` of an optional member cannot be evaluated on a record without it: {err}", top)
-            continue
-        # is the value dereferenced by the helper it is handed to (directly or through the local it is assigned to)?
-        needs_mapping = False
-        for c_ in walk_body(f):
-            if isinstance(c_, ast.Call) and isinstance(c_.func, ast.Attribute) and isinstance(c_.func.value, ast.Name) and c_.func.value.id == params_of(f)[0] and c_.func.attr in cm and cm[c_.func.attr] is not line:
-                for p_, a_ in bind_args(c_, cm[c_.func.attr]).items():
-                    if (a_ is top or (local is not None and isinstance(a_, ast.Name) and a_.id == local)) and \
-                            any(isinstance(x, (ast.Attribute, ast.Subscript)) and isinstance(x.value, ast.Name) and x.value.id == p_ for x in ast.walk(cm[c_.func.attr])):
-                        needs_mapping = True
-        member = ".".join(touched[0])
-        opt_seen[role].add(touched[0])
-        n_opt += 1
-        empty = val is None or (isinstance(val, dict) and not isinstance(val, _Rec) and len(val) == 0)
-        ok = err is None and empty and (isinstance(val, dict) or not needs_mapping)
-        why = "" if ok else (f"`{short(top, 70)}` raises KeyError: the whole comparison aborts ('Cannot compare') instead of skipping the line" if err is not None else
-                             (f"`{short(top, 70)}` yields {val!r} for a race without the member: a line would be built from a value the race does not contain" if not empty else
-                              f"`{short(top, 70)}` yields None, but the helper it is handed to dereferences it"))
-        chk.ob("O20.5", f"{name}: optional member `{member}` of the {'baseline' if role == 'B' else 'contender'}'s task result is read with a default ({OPTIONAL[touched[0]]})", ok, top, why,
-               key=f"{_R}:ComparisonReporter.{name}:optional-member:{role}:{member}")
+        for touched, val, err in results:
+            if not touched:
+                continue  # a row that selects a mandatory member
+            if err is not None and "KeyError" not in err:
+                chk.unknown("O20.5", f"{name}: the read `{short(top, 70)}` of an optional member cannot be evaluated on a record without it: {err}", top)
+                continue
+            # is the value dereferenced by the helper it is handed to (directly or through the local it is assigned to)?
+            needs_mapping = False
+            for c_ in walk_body(f):
+                if isinstance(c_, ast.Call) and isinstance(c_.func, ast.Attribute) and isinstance(c_.func.value, ast.Name) and c_.func.value.id == params_of(f)[0] and c_.func.attr in cm and cm[c_.func.attr] is not line:
+                    for p_, a_ in bind_args(c_, cm[c_.func.attr]).items():
+                        if (a_ is top or (local is not None and isinstance(a_, ast.Name) and a_.id == local)) and \
+                                any(isinstance(x, (ast.Attribute, ast.Subscript)) and isinstance(x.value, ast.Name) and x.value.id == p_ for x in ast.walk(cm[c_.func.attr])):
+                            needs_mapping = True
+            member = ".".join(touched[0])
+            opt_seen[role].add(touched[0])
+            n_opt += 1
+            empty = val is None or (isinstance(val, dict) and not isinstance(val, _Rec) and len(val) == 0)
+            ok = err is None and empty and (isinstance(val, dict) or not needs_mapping)
+            why = "" if ok else (f"`{short(top, 70)}` raises KeyError: the whole comparison aborts ('Cannot compare') instead of skipping the line" if err is not None else
+                                 (f"`{short(top, 70)}` yields {val!r} for a race without the member: a line would be built from a value the race does not contain" if not empty else
+                                  f"`{short(top, 70)}` yields None, but the helper it is handed to dereferences it"))
+            chk.ob("O20.5", f"{name}: optional member `{member}` of the {'baseline' if role == 'B' else 'contender'}'s task result is read with a default ({OPTIONAL[touched[0]]})", ok, top, why,
+                   key=f"{_R}:ComparisonReporter.{name}:optional-member:{role}:{member}")
     # the summary is about reads that WERE located: a member whose read could not be located in one of the races is "not recognised", never a finding
     missing = [f"{'baseline' if r_ == 'B' else 'contender'}: {'.'.join(m_)}" for r_ in ("B", "C") for m_ in sorted(OPTIONAL) if m_ not in opt_seen[r_]]
     if missing:
@@ -1350,24 +1668,33 @@ def run(chk):
     else:
         chk.ob("O20.5", "optional task-result members are read from both races alike (throughput mean, processing time: one read per race)", n_opt >= 4 and opt_seen["B"] == opt_seen["C"] == set(OPTIONAL), rep,
                f"{n_opt} read(s); baseline: {sorted('.'.join(p_) for p_ in opt_seen['B'])}; contender: {sorted('.'.join(p_) for p_ in opt_seen['C'])}", key=f"{_R}:ComparisonReporter:optional-members-symmetric")
-    # scalar guards
+    # scalar guards: a test on a value that is compared (an operand of a line construction: an attribute of a race, a local, or - in an extracted helper - the parameter the value
+    # arrives in and the argument expression at each call of the helper) must be an `is None` test, never truthiness
     n_guard = 0
+    told = set()
     for f, c in sites:
         b = bind_args(c, line)
+        g_ = source.enclosing_func(c) or f
         for side in (P_BASE, P_CONT):
             opnd = b.get(side)
-            if opnd is None or not isinstance(opnd, ast.Attribute):
+            if opnd is None or not isinstance(opnd, (ast.Attribute, ast.Name, ast.Subscript)):
                 continue
-            for n in walk_body(f):
-                if isinstance(n, ast.If):
-                    for a in atoms_of(n.test):
-                        if u(a) == u(opnd):
-                            chk.ob("O20.5", f"{f.name}: guard on `{u(opnd)}`", False, n, f"`{u(n.test)}` tests the compared value by truthiness: a value of 0 drops the line (and breaks swap symmetry / self-comparison)",
-                                   key=f"{_R}:{f.name}:truthiness:{u(opnd)}")
+            places = [(g_, opnd)]
+            if isinstance(opnd, ast.Name):
+                places += [(h_, e_) for h_, e_, _, _, lv_ in origins(g_, opnd, c) if lv_ and isinstance(e_, (ast.Attribute, ast.Name, ast.Subscript))]
+            for h_, e_ in places:
+                tests = [(n, n.test) for n in walk_body(h_) if isinstance(n, (ast.If, ast.IfExp, ast.While))] + [(n, t_) for n in walk_body(h_) if isinstance(n, ast.comprehension) for t_ in n.ifs]
+                for n, test in tests:
+                    for a in atoms_of(test):
+                        if u(a) == u(e_) and (id(n), u(e_)) not in told:
+                            told.add((id(n), u(e_)))
+                            chk.ob("O20.5", f"{h_.name}: guard on `{u(e_)}`", False, n, f"`{u(test)}` tests the compared value by truthiness: a value of 0 drops the line (and breaks swap symmetry / self-comparison)",
+                                   key=f"{_R}:{h_.name}:truthiness:{u(e_)}")
                         c_ = comparison(a)
-                        if c_ and c_[1] in ("is", "is not") and ((u(c_[0]) == u(opnd) and u(c_[2]) == "None") or (u(c_[2]) == u(opnd) and u(c_[0]) == "None")):
+                        if c_ and c_[1] in ("is", "is not") and ((u(c_[0]) == u(e_) and u(c_[2]) == "None") or (u(c_[2]) == u(e_) and u(c_[0]) == "None")) and (id(n), u(e_)) not in told:
+                            told.add((id(n), u(e_)))
                             n_guard += 1
-                            chk.ob("O20.5", f"{f.name}: `{u(a)}`", True, n, "")
+                            chk.ob("O20.5", f"{h_.name}: `{u(a)}`", True, n, "")
     # a statistic that is absent from an (older) stored race reads back as None: a list-valued one that is ITERATED must be None-tested for the race it is read from — the baseline's
     # guard does not protect the loop over the contender's list (comparing new-vs-old would crash while old-vs-new works)
     met2 = repo.module("esrally/metrics.py")
@@ -1377,35 +1704,49 @@ def run(chk):
         if isinstance(n, ast.Assign) and is_self_attr(n.targets[0]) and isinstance(n.value, ast.Call) and u(n.value.func) == "self.v" and len(n.value.args) == 2 and not n.value.keywords:
             nullable.add(n.targets[0].attr)
     n_it = 0
+
+    def early_exit_tests(h, is_tested, anchor):
+        """the `<tested> is None [or ...]` tests of function h with an early return / raise that dominate `anchor`, plus the enclosing positive guards of anchor that state the
+        same fact (`if <tested> is not None [and ...]: ...`, or the else arm of an `is None [or ...]` test); is_tested(expression) says whether the operand is the one looked for."""
+        none_test = lambda d_, op=ast.Is: isinstance(d_, ast.Compare) and len(d_.ops) == 1 and isinstance(d_.ops[0], op) and source.is_const(d_.comparators[0], None) and is_tested(d_.left)  # noqa: E731
+        gh = cfg_of(h)
+        found = []
+        try:
+            target = gh.node_of(anchor)
+        except KeyError:
+            return found
+        for t in [n for n in walk_body(h) if isinstance(n, ast.If)]:
+            parts = t.test.values if isinstance(t.test, ast.BoolOp) and isinstance(t.test.op, ast.Or) else [t.test]
+            if any(none_test(d_) for d_ in parts) and any(isinstance(x, (ast.Return, ast.Raise)) for x in t.body) and gh.dominated_by_nodes(target, [gh.node_of(t)]):
+                found.append(t)
+        for t_, pol in guards(anchor, path_sensitive=True):
+            conj = t_.values if isinstance(t_, ast.BoolOp) and isinstance(t_.op, ast.And if pol else ast.Or) else [t_]
+            if any(none_test(d_, ast.IsNot if pol else ast.Is) for d_ in conj):
+                found.append(t_)
+        return found
+
     for name, f in cm.items():
-        ps_ = params_of(f)[1:]
-        gf = cfg_of(f)
-        fdefs_ = local_defs(f)
-        for loop_ in [n for n in walk_body(f) if isinstance(n, ast.For)]:
-            # the iterated list by role: `<race parameter>.<optional statistic>`, directly, through a hoisted single-assignment local, or defaulted (`... or []`)
-            it_ = source.inline_node(loop_.iter, fdefs_)
-            defaulted = isinstance(it_, ast.BoolOp) and isinstance(it_.op, ast.Or) and len(it_.values) == 2 and isinstance(it_.values[1], (ast.List, ast.Tuple)) and not it_.values[1].elts
-            if defaulted:
-                it_ = it_.values[0]
-            if not (isinstance(it_, ast.Attribute) and isinstance(it_.value, ast.Name) and it_.value.id in ps_ and it_.attr in nullable):
-                continue
-            race = it_.value.id
-            n_it += 1
-            none_test = lambda d_, op=ast.Is: isinstance(d_, ast.Compare) and len(d_.ops) == 1 and isinstance(d_.ops[0], op) and source.is_const(d_.comparators[0], None) \
-                and isinstance(d_.left, ast.Attribute) and isinstance(d_.left.value, ast.Name) and d_.left.value.id == race  # noqa: E731
-            tests = [loop_] if defaulted else []
-            for t in [n for n in walk_body(f) if isinstance(n, ast.If)]:
-                parts = t.test.values if isinstance(t.test, ast.BoolOp) and isinstance(t.test.op, ast.Or) else [t.test]
-                if any(none_test(d_) for d_ in parts) and any(isinstance(x, (ast.Return, ast.Raise)) for x in t.body) and gf.dominated_by_nodes(gf.node_of(loop_), [gf.node_of(t)]):
-                    tests.append(t)
-            # the same fact as an enclosing positive guard: `if <race>.<statistic> is not None [and ...]: for ...` (or the else arm of an `is None [or ...]` test)
-            for t_, pol in guards(loop_, path_sensitive=True):
-                conj = t_.values if isinstance(t_, ast.BoolOp) and isinstance(t_.op, ast.And if pol else ast.Or) else [t_]
-                if any(none_test(d_, ast.IsNot if pol else ast.Is) for d_ in conj):
-                    tests.append(t_)
-            chk.ob("O20.5", f"{name}: `{u(it_)}` (None for a race stored without it) is None-tested before it is iterated", bool(tests), loop_,
-                   "" if tests else f"no `{race}.<statistic> is None` test with an early return dominates the loop: the comparison crashes when only this race lacks the statistic",
-                   key=f"{_R}:ComparisonReporter.{name}:iterated-nullable:{u(it_)}")
+        # every iteration of the reporter (for statement or comprehension); the iterated list by role: `<race parameter>.<optional statistic>`, directly, through a hoisted
+        # single-assignment local, defaulted (`... or []`), or - in an extracted helper that iterates a PARAMETER - the argument of each call of the helper
+        for loop_ in [n for n in walk_body(f) if isinstance(n, (ast.For, ast.comprehension))]:
+            for h, it_, anchor, defaulted, levels in [(h_, x_, a_, d_, l_) for h_, e_, a_, d_, l_ in origins(f, loop_.iter, loop_) for x_ in attr_forms(a_, e_)]:
+                hm = h
+                while hm is not None and cm.get(hm.name) is not hm:
+                    hm = source.enclosing_func(hm)
+                if hm is None or not (isinstance(it_, ast.Attribute) and isinstance(it_.value, ast.Name) and it_.value.id in params_of(hm)[1:] and it_.attr in nullable):
+                    continue
+                race = it_.value.id
+                k_ = f"{_R}:ComparisonReporter.{hm.name}:iterated-nullable:{u(it_)}"
+                n_it += 1
+                # a None test of (a statistic of) the race the list is read from, before the list is handed on / iterated; or of the very parameter inside the helper that iterates it
+                tests = [loop_] if defaulted else []
+                tests += early_exit_tests(h, lambda e_: isinstance(e_, ast.Attribute) and isinstance(e_.value, ast.Name) and e_.value.id == race, anchor)
+                for g_, p_, a_ in levels:
+                    tests += early_exit_tests(g_, lambda e_, p_=p_: isinstance(e_, ast.Name) and e_.id == p_, a_)
+                via = "" if not levels else f" (iterated in {levels[0][0].name} as `{levels[0][1]}`)"
+                chk.ob("O20.5", f"{hm.name}: `{u(it_)}` (None for a race stored without it) is None-tested before it is iterated{via}", bool(tests), anchor,
+                       "" if tests else f"no `{race}.<statistic> is None` test with an early return dominates the loop: the comparison crashes when only this race lacks the statistic",
+                       key=k_)
     located(n_it >= 2, "O20.5", "iterated optional statistics located", rep, f"{n_it} loop(s) over optional list-valued statistics")
     # what the comparison reads as statistic X of a stored race IS statistic X: every results attribute the comparison selects is initialised from the stored key of the same name
     init_keys = {}
@@ -1424,7 +1765,7 @@ def run(chk):
                 read_attrs |= {a_ for a_ in init_keys if suffix and a_.endswith(suffix)}
             if isinstance(x, ast.Call) and dotted(x.func) == "getattr" and len(x.args) >= 2 and isinstance(x.args[1], ast.Name) and env.get(getattr(x.args[0], "id", None)):
                 # the attribute name is a column of a literal table the call is iterated over
-                for row_ in table_rows(x) or []:
+                for row_ in table_rows(x)[0] or []:
                     v_ = row_.get(x.args[1].id)
                     if isinstance(v_, ast.Constant) and v_.value in init_keys:
                         read_attrs.add(v_.value)
@@ -1505,38 +1846,124 @@ def run(chk):
         chk.ob("O20.3", f"{f.name}: the line's formatter is a fixed (linear) unit conversion", verdict, c, why + ("" if verdict else ": baseline, contender and their difference are each scaled to their own unit, so the Diff column is not contender minus baseline in the line's unit"),
                key=f"{_R}:ComparisonReporter.{f.name}:linear-formatter:{lab}")
     located(n_fmt >= 10, "O20.3", "formatters of comparison lines located", line, f"{n_fmt} line(s) with a formatter")
-    # list-valued statistics are paired by id in nested loops (for b in baseline.X: for c in contender.X: if c[K] == <id>): the id compared with is the one of the CURRENT baseline
-    # element — bound inside this outer loop from its loop variable (a name left over from an earlier loop pairs every element with the last one of that loop)
+    # list-valued statistics are paired by id: for every element of the baseline's list the element of the contender's list with the same id is looked up - by a nested iteration
+    # (for b in baseline.X: for c in contender.X: if c[K] == <id>; statement loops or comprehensions / next(<generator>)) or through an index (`by_id = {c[K]: c for c in contender.X}`
+    # ... `by_id.get(b[K])`). The id compared with is the one of the CURRENT baseline element: bound inside this outer iteration from its loop variable, same member (a name left
+    # over from an earlier loop pairs every element with the last one of that loop). A pairing inside an extracted helper that iterates its PARAMETERS stands for one pairing per
+    # call of the helper.
+    from sa.cfg import conjuncts
+
+    def iterations(f):
+        """the iterations of f: (node, target, iterable, nodes evaluated once per element) of every for statement and of every generator of a comprehension"""
+        out = []
+        for n in walk_body(f):
+            if isinstance(n, ast.For):
+                out.append((n, n.target, n.iter, list(n.body)))
+            elif isinstance(n, (ast.ListComp, ast.SetComp, ast.GeneratorExp, ast.DictComp)):
+                for i_, gen in enumerate(n.generators):
+                    out.append((gen, gen.target, gen.iter, list(gen.ifs) + list(n.generators[i_ + 1:]) + ([n.key, n.value] if isinstance(n, ast.DictComp) else [n.elt])))
+        return out
+
+    def elem_key(e, var):
+        """the member text K when e is `var[K]` / `var.get(K)`, else None"""
+        m_ = pat.match(e, "V_v[E_k]", binds={"v": var}) or pat.match(e, "V_v.get(E_k)", binds={"v": var})
+        return m_["k"] if m_ else None
+
     n_pair = 0
     for name, f in cm.items():
-        for outer in [n for n in walk_body(f) if isinstance(n, ast.For) and isinstance(n.target, ast.Name)]:
-            for inner in [n for n in outer.body if isinstance(n, ast.For) and isinstance(n.target, ast.Name)]:
-                for t in [n for n in ast.walk(inner) if isinstance(n, ast.If)]:
-                    m_ = pat.match(t.test, "V_c[E_k] == V_id", binds={"c": inner.target.id})
-                    if m_ is None:
-                        direct = pat.match(t.test, "V_c[E_k] == V_b[E_k2]", binds={"c": inner.target.id, "b": outer.target.id})
-                        if direct is not None:
-                            n_pair += 1
-                            chk.ob("O20.2", f"{name}: `{u(inner.iter)}` paired with the current element of `{u(outer.iter)}`", direct["k"] == direct["k2"], t, u(t.test))
+        its = iterations(f)
+        scope = {id(it_[0]): {id(x) for s_ in it_[3] for x in ast.walk(s_)} for it_ in its}
+        fdefs_p = local_defs(f)
+
+        def bound_from(idv, outer_n, outer_t, before):
+            """the member K when the name idv is bound exactly once inside the outer iteration (before line `before`) as `<outer element>[K]` / `.get(K)`;
+            ('other', text) when it is bound there from the element in another way, ('stale', None) when it is only bound outside the iteration, None when it cannot be derived"""
+            inside = scope[id(outer_n)]
+            asg = [n for n in ast.walk(f) if isinstance(n, (ast.Assign, ast.NamedExpr)) and
+                   any(isinstance(x, ast.Name) and x.id == idv for t_ in (n.targets if isinstance(n, ast.Assign) else [n.target]) for x in ast.walk(t_))]
+            here = [n for n in asg if id(n) in inside and n.lineno <= before]
+            loops = [it_ for it_ in its if any(isinstance(x, ast.Name) and x.id == idv for x in ast.walk(it_[1]))]
+            if loops:
+                return None  # the id is itself a loop variable (iteration over a keyed container): which member it is cannot be read off here
+            if len(here) == 1 and elem_key(here[0].value, outer_t) is not None:
+                return elem_key(here[0].value, outer_t)
+            if here and all(any(isinstance(x, ast.Name) and x.id == outer_t for x in ast.walk(n.value)) for n in here) and all(elem_key(n.value, outer_t) is None for n in here) and \
+                    all(isinstance(n.value, (ast.Subscript, ast.Call)) and isinstance(getattr(n.value, "value", getattr(n.value, "func", None)), (ast.Name, ast.Attribute)) for n in here):
+                return ("other", u(here[0].value))
+            if not here and asg and not any(id(n) in inside for n in asg):
+                return ("stale", None)
+            return None
+
+        def weight(inner_n, inner_iter):
+            return max(1, sum(len(attr_forms(a_, e_)) for _, e_, a_, _, _ in origins(f, inner_iter, inner_n)))
+
+        for outer_n, outer_tg, outer_iter, _ in its:
+            if not isinstance(outer_tg, ast.Name):
+                continue
+            direct = [it_ for it_ in its if id(it_[0]) in scope[id(outer_n)] and not any(id(y[0]) in scope[id(outer_n)] and id(it_[0]) in scope[id(y[0])] for y in its if y[0] is not outer_n and y[0] is not it_[0])]
+            for inner_n, inner_tg, inner_iter, inner_scope in direct:
+                if not isinstance(inner_tg, ast.Name):
+                    continue
+                tests = [x.test for s_ in inner_scope for x in ast.walk(s_) if isinstance(x, (ast.If, ast.IfExp))] + [c_ for s_ in inner_scope for x in ast.walk(s_) if isinstance(x, ast.comprehension) for c_ in x.ifs] + \
+                        (list(inner_n.ifs) if isinstance(inner_n, ast.comprehension) else [])
+                seen_t = set()
+                for t in [a_ for t_ in tests for a_ in conjuncts(t_)]:
+                    if id(t) in seen_t or not (isinstance(t, ast.Compare) and len(t.ops) == 1 and isinstance(t.ops[0], ast.Eq)):
                         continue
-                    n_pair += 1
-                    idv = m_["id"]
-                    inst = f"{name}: `{u(inner.iter)}` paired with the current element of `{u(outer.iter)}`"
-                    # where the id compared with comes from: bound inside THIS outer loop (before the inner loop) from the outer loop's element - subscript or .get(), same key
-                    here = [n for s_ in outer.body if s_.lineno < inner.lineno for n in ast.walk(s_) if isinstance(n, ast.Assign) and any(isinstance(x, ast.Name) and x.id == idv for x in n.targets)]
-                    elsewhere = [n for n in ast.walk(f) if isinstance(n, (ast.Assign, ast.For)) and n not in here and
-                                 any(isinstance(x, ast.Name) and x.id == idv and isinstance(x.ctx, ast.Store) for t_ in (n.targets if isinstance(n, ast.Assign) else [n.target]) for x in ast.walk(t_))]
-                    from_elem = [n for n in here if pat.match(n.value, f"V_b[{m_['k']}]", binds={"b": outer.target.id}) is not None or pat.match(n.value, f"V_b.get({m_['k']})", binds={"b": outer.target.id}) is not None]
-                    if len(here) == 1 and from_elem:
-                        ok, why = True, ""
-                    elif here and all(any(isinstance(x, ast.Name) and x.id == outer.target.id for x in ast.walk(n.value)) for n in here):
-                        ok, why = False, f": `{idv}` is bound from `{u(here[0].value)}`, not from `{outer.target.id}[{m_['k']}]` - the two lists are paired by different members"
-                    elif not here and elsewhere:
-                        ok, why = False, f": `{idv}` is not bound from `{outer.target.id}[{m_['k']}]` inside this loop — it still holds the value an earlier loop left behind"
+                    seen_t.add(id(t))
+                    sides = [t.left, t.comparators[0]]
+                    ks = [elem_key(x, inner_tg.id) for x in sides]
+                    if ks.count(None) != 1:
+                        continue
+                    k_in, other = next(k_ for k_ in ks if k_ is not None), sides[ks.index(None)]
+                    inst = f"{name}: `{u(inner_iter)}` paired with the current element of `{u(outer_iter)}`"
+                    if elem_key(other, outer_tg.id) is not None:
+                        n_pair += weight(inner_n, inner_iter)
+                        chk.ob("O20.2", inst, k_in == elem_key(other, outer_tg.id), t, u(t))
+                        continue
+                    if not isinstance(other, ast.Name):
+                        continue
+                    n_pair += weight(inner_n, inner_iter)
+                    idv = other.id
+                    got = bound_from(idv, outer_n, outer_tg.id, inner_n.lineno if hasattr(inner_n, "lineno") else source.enclosing_stmt(inner_n).lineno)
+                    if got is None:
+                        chk.unknown("O20.2", f"{inst}: where `{idv}` in `{u(t)}` comes from cannot be derived", t)
+                        continue
+                    if isinstance(got, tuple):
+                        ok = False
+                        why = f": `{idv}` is bound from `{got[1]}`, not from `{outer_tg.id}[{k_in}]` - the two lists are paired by different members" if got[0] == "other" else \
+                            f": `{idv}` is not bound from `{outer_tg.id}[{k_in}]` inside this loop — it still holds the value an earlier loop left behind"
                     else:
-                        chk.unknown("O20.2", f"{inst}: where `{idv}` in `{u(t.test)}` comes from cannot be derived", t)
+                        ok = got == k_in
+                        why = "" if ok else f": `{idv}` is `{outer_tg.id}[{got}]`, the contender's element is selected by `[{k_in}]` - the two lists are paired by different members"
+                    chk.ob("O20.2", inst, ok, t, f"`{u(t)}`" + why, key=f"{_R}:ComparisonReporter.{name}:pairing:{u(outer_iter)}")
+        # the index shape: `idx = {c[K]: c for c in <list>}` looked up with the id of the current element of an iteration over the other list
+        for idx, d_ in fdefs_p.items():
+            if not (isinstance(d_, ast.DictComp) and len(d_.generators) == 1 and isinstance(d_.generators[0].target, ast.Name) and not d_.generators[0].ifs and
+                    isinstance(d_.value, ast.Name) and d_.value.id == d_.generators[0].target.id and elem_key(d_.key, d_.generators[0].target.id) is not None):
+                continue
+            k_in = elem_key(d_.key, d_.generators[0].target.id)
+            for outer_n, outer_tg, outer_iter, _ in its:
+                if not isinstance(outer_tg, ast.Name) or outer_n is d_.generators[0]:
+                    continue
+                for x in [x for x in ast.walk(f) if id(x) in scope[id(outer_n)]]:
+                    key_e = None
+                    if isinstance(x, ast.Subscript) and isinstance(x.value, ast.Name) and x.value.id == idx and isinstance(x.ctx, ast.Load):
+                        key_e = x.slice
+                    elif isinstance(x, ast.Call) and isinstance(x.func, ast.Attribute) and x.func.attr == "get" and isinstance(x.func.value, ast.Name) and x.func.value.id == idx and x.args:
+                        key_e = x.args[0]
+                    if key_e is None:
                         continue
-                    chk.ob("O20.2", inst, ok, t, f"`{u(t.test)}`" + why, key=f"{_R}:ComparisonReporter.{name}:pairing:{u(outer.iter)}")
+                    inst = f"{name}: `{u(d_.generators[0].iter)}` (indexed by `{k_in}`) paired with the current element of `{u(outer_iter)}`"
+                    n_pair += weight(d_.generators[0], d_.generators[0].iter)
+                    got = elem_key(key_e, outer_tg.id) if not isinstance(key_e, ast.Name) else bound_from(key_e.id, outer_n, outer_tg.id, x.lineno)
+                    if got is None:
+                        chk.unknown("O20.2", f"{inst}: where the key `{u(key_e)}` of the lookup comes from cannot be derived", x)
+                    elif isinstance(got, tuple):
+                        chk.ob("O20.2", inst, False, x, f"`{u(x)}`: the key is not the `{k_in}` of the current element" + (f" (bound from `{got[1]}`)" if got[1] else " (bound outside this loop)"),
+                               key=f"{_R}:ComparisonReporter.{name}:pairing:{u(outer_iter)}")
+                    else:
+                        chk.ob("O20.2", inst, got == k_in, x, f"`{u(x)}`" + ("" if got == k_in else f": looked up by `[{got}]` in an index built on `[{k_in}]`"), key=f"{_R}:ComparisonReporter.{name}:pairing:{u(outer_iter)}")
     located(n_pair >= 5, "O20.2", "id-paired statistics located", rep, f"{n_pair} pairing test(s)")
     # asymmetric None guards -> advisory
     for name, f in cm.items():
